@@ -84,7 +84,8 @@ type Req struct {
 	Headers []Hdr  `json:"headers"` // as sent (names in any case, values trimmed)
 	Peer    string `json:"peer"`    // RemoteAddr as net/http reports it
 	XFF     string `json:"xff,omitempty"`
-	Mut     string `json:"mut"` // what the generator intended (label only; the oracle does not read it)
+	Mut     string `json:"mut"`             // what the generator intended (label only; the oracle does not read it)
+	Subst   string `json:"subst,omitempty"` // hdr-char-substituted: kind of substitution and class of the replaced character (label only)
 
 	Host      string `json:"host"`                 // Request.Host as net/http reports it (the Host header)
 	HostClass string `json:"host_class,omitempty"` // how the generator chose it (label only)
@@ -478,6 +479,9 @@ func genReqN(t *rapid.T, c Cfg, forceNm int) Req {
 		}
 		tgt := ""
 		if applyMut(t, c, &r, m, &tgt) {
+			if m == "hdr-char-substituted" {
+				m += ":" + r.Subst
+			}
 			if tgt != "" {
 				m += "@" + tgt // the name class of the header the mutation hit (names_test.go)
 			}
@@ -506,6 +510,13 @@ func applicable(c Cfg, r *Req) []string {
 	}
 	if len(nonIgnoredIdx(r)) > 0 {
 		out = append(out, "hdr-missing", "hdr-wrong", "hdr-case", "hdr-truncated", "hdr-truncated", "hdr-extended", "hdr-duplicated")
+		// one ASCII character of the value substituted by a neighbouring one (punct_test.go)
+		for _, i := range nonIgnoredIdx(r) {
+			if canSubstitute(r.Headers[i].Value) {
+				out = append(out, "hdr-char-substituted", "hdr-char-substituted")
+				break
+			}
+		}
 	}
 	if uaDemanded(c) {
 		out = append(out, "ua-wrong", "ua-missing", "ua-case")
@@ -616,6 +627,32 @@ func applyMut(t *rapid.T, c Cfg, r *Req, m string, target *string) bool {
 		case "hdr-extended":
 			r.Headers[i].Value = v + ": more"
 		}
+	case "hdr-char-substituted":
+		// one ASCII character of a configured value replaced by a one-bit neighbour or the next / previous
+		// code (punct_test.go); a value with punctuation is preferred
+		var idx, punct []int
+		for _, i := range nonIgnoredIdx(r) {
+			if canSubstitute(r.Headers[i].Value) {
+				idx = append(idx, i)
+				if hasASCIIPunctBeyondPool(r.Headers[i].Value) {
+					punct = append(punct, i)
+				}
+			}
+		}
+		if len(idx) == 0 {
+			return false
+		}
+		if len(punct) > 0 && rapid.IntRange(0, 3).Draw(t, "subst-prefer-punct") > 0 {
+			idx = punct
+		}
+		i := idx[rapid.IntRange(0, len(idx)-1).Draw(t, "which-hdr")]
+		nv, lbl, ok := applyCharSubst(t, r.Headers[i].Value)
+		if !ok {
+			return false
+		}
+		*target = headerTargetClass(c, r.Headers[i].Name)
+		r.Headers[i].Value = nv
+		r.Subst = lbl
 	case "ua-wrong":
 		if !uaDemanded(c) {
 			return false
@@ -1249,6 +1286,7 @@ func classify(c Case) core.Class {
 		}
 	}
 	cl.Labels = append(cl.Labels, unicodeCfgLabels(c.Cfg)...)
+	cl.Labels = append(cl.Labels, punctCfgLabels(c.Cfg)...)
 	nameClasses := nameClassLabels(c.Cfg)
 	for _, l := range nameClasses {
 		cl.Labels = append(cl.Labels, "cfg:"+l)
@@ -1301,6 +1339,7 @@ func classify(c Case) core.Class {
 		}
 		cl.Labels = append(cl.Labels, nameClassReqLabels(nameClasses, r, v)...)
 		cl.Labels = append(cl.Labels, unicodeReqLabels(r, v)...)
+		cl.Labels = append(cl.Labels, punctReqLabels(r, v)...)
 		cl.Labels = append(cl.Labels, faultLabels(c.Cfg, r, i, len(c.Reqs))...)
 		if nc >= 1 && (v.MustAdmit || (v.MustReject && len(v.Reasons) == 1)) {
 			cl.NonTrivial = true
@@ -1385,7 +1424,7 @@ func TestMain(m *testing.M) {
 func TestC12a(t *testing.T) {
 	core.Run(t, core.Spec[Case]{
 		Property: "C12", Sub: "a",
-		Rule: "every field of HTTPConfig is drawn: besides those below, 1-3 Hosts with/without port, HostHeader (unset / a name / name:port / equal to a host / resembling one), rotation, PortConn, proxy settings, kill date, working hours, method spelling, TLS (rarely - about 1/3000 quick, 1/1500 thorough: a real certificate is generated); requests additionally draw Request.Host (the canonical one = HostHeader or a host, case variant, port added/removed, one of Hosts, the bind address, garbage, empty, another host) and 0-3 further headers with names that are not configured (X-Forwarded-Host, Referer, Origin, Cookie, Content-Type, X-Real-IP, Forwarded, Authorization): by the statement none of these influences admission. Admission-relevant part: listener configuration (0-4 URIs with/without query or the [\"\"] form, user agent set/unset, 0-4 request headers 'Name: value' incl. the ignored Connection/Accept-Encoding and values containing ': ' and ':', 0-3 response headers with values containing ':', redirector flag) on the real handlers.HTTP after Start(); 1-6 requests generated around that configuration: the canonical Demon request, or with one / several of {GET,PUT,HEAD, wrong path, extra query, path case, path suffix, header missing/wrong/case/truncated/extended, user agent wrong/missing/case, ignored header altered; Unicode classes: a configured header value / the user agent / the URI with one letter replaced by a Unicode simple-case-folding partner outside the ASCII pair (long s U+017F for s, Kelvin sign U+212A for k, final sigma / sigma, micro sign / mu, Greek symbol variants) or by a confusable (fullwidth form, combining mark appended, the other normalisation form NFC/NFD, Cyrillic / Greek / Turkic look-alike incl. dotted capital I), the URI also percent-encoded - the pools of configured values contain s / k / sigma / micro / sharp s / composed letters for that; header repeated in the request with another value before / after the right one}, IPv4 and IPv6 peers, X-Forwarded-For present or not; body = valid registration. Header-NAME classes (4 of 10 configurations; each verified against HEAD over a real socket before it was modelled): entries of the Headers list named User-Agent (UserAgent setting unset / the same value / a different value), Host (HostHeader unset / set), Content-Length (equal to the body length or not), Content-Type, Cookie, Connection / Accept-Encoding, the same name twice (same / different values), a name differing only in case from another entry, names in non-canonical case (lower / upper), a name with a trailing blank; requests follow the configuration (user agent from the setting or, when only the Headers list names one, from the entry; Request.Host from the Host entry in half of the cases; stack-owned names are not sent as ordinary headers) and are mutated at those entries (user agent wrong / missing / case / fold partner / confusable, that header missing / different / truncated / extended / repeated); every request is judged on Request.Header as net/http delivers it (canonical names, no Host, Content-Length = body length, a name that is not a token undeliverable): admitted only if it matches method, URI, the UserAgent setting AND every entry the documented skip list (Connection, Accept-Encoding) does not exempt - a User-Agent entry is a header like any other (same lower-case form), a Host entry is matched against Request.Host (equal: accepted either way, HEAD never finds Host in Request.Header; different: decoy), a Content-Length entry against the body length, an undeliverable name rejects everything, a header repeated in the request that carries the configured value among its values is accepted either way. Oracle from the statement: a header value counts as 'the configured value' when it is byte-equal (must admit) or has the same lower-case form (the documented case-insensitive comparison: grey, accepted either way - that includes the Kelvin sign for k and dotted capital I for i, whose lower-case forms are k and i); a value that merely case-FOLDS to the configured one (long s, final sigma, micro sign) or is a confusable of it is a different value and must get the decoy, and the user agent and the URI compare exactly; admitted => all constraints hold; all hold => admitted with 200 + registration reply + every response header with its full value + ExternalIP = peer IP (or X-Forwarded-For iff redirector); otherwise 404 and no recorder event. SCALE (about one case in 60; one count per case from the threshold-adjacent pool {63,64,65, 127..129, 255..257, 511..513, 999..1001, 1023..1025, 2047..2049, 4095..4097, 8191..8193}): requests served by one listener instance - a bulk of 1-3 request templates (one mutation / several / canonical / GET), each sent its share of the total, interleaved, placed before, between or after the ordinary requests or split around them, through the same gin engine, EVERY request judged by the ordinary oracle (totals up to 8193; templates that may be admitted are cut at 2049 per bulk in the quick tier, 8193 in the thorough one); configured request headers / URIs / hosts of the listener (cut at 1025 entries, inserted before / in the middle of / after the ordinary ones; HEAD accepts them), the size of one configured header value (up to 8193 bytes), unconfigured headers per request (up to 8193) and the size of one request header (up to 8193 bytes); labels scale:<what>:<bucket>, tallied in the evidence's extra block. FAULT INJECTION (about one case in 4; ONE request of the case is served while one dependency of the handler fails, the requests after it run with the fault lifted; such cases run in a working directory that HAS the decoy page pkg/handlers/404.html - the harness's own never had it): (1) the request BODY cannot be read completely - in-process Request.Body is a reader that delivers k bytes of the registration and then fails (a connection error; io.ErrUnexpectedEOF with a Content-Length announcing more than is delivered), or the announced Content-Length is smaller than what is sent (the body ends there); over a REAL socket (httptest.Server around the listener's gin engine, raw bytes written by the harness, the request net/http hands over verified against the delivery model - otherwise the same fault in-process): Content-Length larger than sent then FIN, or then RST (SO_LINGER 0; incomplete bodies only, the answer is unobservable and admission / side effects are judged), a chunked body whose next chunk-size line is garbage, a chunked body cut by FIN before the terminating chunk or inside a chunk (1-3 chunks), Content-Length smaller than sent with the rest pipelined behind the request; the break happens once the handler is running; k = 0, 1, the agent header's edges (11..21), anywhere, all but one byte, and in 40% THE WHOLE BODY (the read fails after everything was delivered); (2) the RESPONSE WRITER fails: its Write takes k of {0,1,2,3,17,145} bytes and then errors for good; (3) the DECOY PAGE file is missing / is a directory / the working directory is elsewhere during that request. The faulted request keeps its generated class or (1/3) is redrawn canonical / with exactly one mutation, so every request class (matching, each single violation, several, grey, GET/PUT/HEAD) meets the faults. Oracle unchanged, with HEAD's rule for a failed step (verified by experiment): verdict and answer headers do not depend on whether the body could be read or the answer written - body complete (also when the read then fails) => served like any other request: admitted iff the profile is satisfied, 200 + reply + every response header + sender address (over a socket the connection's own address); body incomplete => a request violating the profile gets the decoy 404 and nothing changes, a request matching it reaches the agent protocol, which may refuse the truncated registration (404, no session, no event) but the answer still carries every configured response header except the names the decoy sets itself (Server, Content-Type, X-Havoc); writer failed => status and headers as they went out are the ordinary ones, the body is a prefix, an admitted request has exactly one session; decoy page unavailable => 404 and nothing changed; decoy page available (every request of such a case but the one under a page fault) => every rejected POST and every GET carries Server: nginx, Content-Type text/html and the page byte for byte (PUT / HEAD: no route, status only). A Content-Length entry of the Headers list is matched against the Content-Length the request announces (none when chunked). Labels fault:<dependency>:<operation>:<how>[:<via>]@<matching|non-matching|grey>, fault-step:<dependency>@<request class>, fault-body:*; tallies and socket delivery counts in the evidence's extra block. Non-trivial: >=1 configured constraint and a request that satisfies all or violates exactly one; distinct = (constraint bucket, redirector, config feature, verdict kind of the first non-trivial request)",
+		Rule: "every field of HTTPConfig is drawn: besides those below, 1-3 Hosts with/without port, HostHeader (unset / a name / name:port / equal to a host / resembling one), rotation, PortConn, proxy settings, kill date, working hours, method spelling, TLS (rarely - about 1/3000 quick, 1/1500 thorough: a real certificate is generated); requests additionally draw Request.Host (the canonical one = HostHeader or a host, case variant, port added/removed, one of Hosts, the bind address, garbage, empty, another host) and 0-3 further headers with names that are not configured (X-Forwarded-Host, Referer, Origin, Cookie, Content-Type, X-Real-IP, Forwarded, Authorization): by the statement none of these influences admission. Admission-relevant part: listener configuration (0-4 URIs with/without query or the [\"\"] form, user agent set/unset, 0-4 request headers 'Name: value' incl. the ignored Connection/Accept-Encoding and values containing ': ' and ':', 0-3 response headers with values containing ':', redirector flag) on the real handlers.HTTP after Start(); 1-6 requests generated around that configuration: the canonical Demon request, or with one / several of {GET,PUT,HEAD, wrong path, extra query, path case, path suffix, header missing/wrong/case/truncated/extended, user agent wrong/missing/case, ignored header altered; Unicode classes: a configured header value / the user agent / the URI with one letter replaced by a Unicode simple-case-folding partner outside the ASCII pair (long s U+017F for s, Kelvin sign U+212A for k, final sigma / sigma, micro sign / mu, Greek symbol variants) or by a confusable (fullwidth form, combining mark appended, the other normalisation form NFC/NFD, Cyrillic / Greek / Turkic look-alike incl. dotted capital I), the URI also percent-encoded - the pools of configured values contain s / k / sigma / micro / sharp s / composed letters for that; header repeated in the request with another value before / after the right one}, IPv4 and IPv6 peers, X-Forwarded-For present or not; body = valid registration. Header-NAME classes (4 of 10 configurations; each verified against HEAD over a real socket before it was modelled): entries of the Headers list named User-Agent (UserAgent setting unset / the same value / a different value), Host (HostHeader unset / set), Content-Length (equal to the body length or not), Content-Type, Cookie, Connection / Accept-Encoding, the same name twice (same / different values), a name differing only in case from another entry, names in non-canonical case (lower / upper), a name with a trailing blank; requests follow the configuration (user agent from the setting or, when only the Headers list names one, from the entry; Request.Host from the Host entry in half of the cases; stack-owned names are not sent as ordinary headers) and are mutated at those entries (user agent wrong / missing / case / fold partner / confusable, that header missing / different / truncated / extended / repeated); every request is judged on Request.Header as net/http delivers it (canonical names, no Host, Content-Length = body length, a name that is not a token undeliverable): admitted only if it matches method, URI, the UserAgent setting AND every entry the documented skip list (Connection, Accept-Encoding) does not exempt - a User-Agent entry is a header like any other (same lower-case form), a Host entry is matched against Request.Host (equal: accepted either way, HEAD never finds Host in Request.Header; different: decoy), a Content-Length entry against the body length, an undeliverable name rejects everything, a header repeated in the request that carries the configured value among its values is accepted either way. Oracle from the statement: a header value counts as 'the configured value' when it is byte-equal (must admit) or has the same lower-case form (the documented case-insensitive comparison: grey, accepted either way - that includes the Kelvin sign for k and dotted capital I for i, whose lower-case forms are k and i); a value that merely case-FOLDS to the configured one (long s, final sigma, micro sign) or is a confusable of it is a different value and must get the decoy, and the user agent and the URI compare exactly; admitted => all constraints hold; all hold => admitted with 200 + registration reply + every response header with its full value + ExternalIP = peer IP (or X-Forwarded-For iff redirector); otherwise 404 and no recorder event. SCALE (about one case in 60; one count per case from the threshold-adjacent pool {63,64,65, 127..129, 255..257, 511..513, 999..1001, 1023..1025, 2047..2049, 4095..4097, 8191..8193}): requests served by one listener instance - a bulk of 1-3 request templates (one mutation / several / canonical / GET), each sent its share of the total, interleaved, placed before, between or after the ordinary requests or split around them, through the same gin engine, EVERY request judged by the ordinary oracle (totals up to 8193; templates that may be admitted are cut at 2049 per bulk in the quick tier, 8193 in the thorough one); configured request headers / URIs / hosts of the listener (cut at 1025 entries, inserted before / in the middle of / after the ordinary ones; HEAD accepts them), the size of one configured header value (up to 8193 bytes), unconfigured headers per request (up to 8193) and the size of one request header (up to 8193 bytes); labels scale:<what>:<bucket>, tallied in the evidence's extra block. FAULT INJECTION (about one case in 4; ONE request of the case is served while one dependency of the handler fails, the requests after it run with the fault lifted; such cases run in a working directory that HAS the decoy page pkg/handlers/404.html - the harness's own never had it): (1) the request BODY cannot be read completely - in-process Request.Body is a reader that delivers k bytes of the registration and then fails (a connection error; io.ErrUnexpectedEOF with a Content-Length announcing more than is delivered), or the announced Content-Length is smaller than what is sent (the body ends there); over a REAL socket (httptest.Server around the listener's gin engine, raw bytes written by the harness, the request net/http hands over verified against the delivery model - otherwise the same fault in-process): Content-Length larger than sent then FIN, or then RST (SO_LINGER 0; incomplete bodies only, the answer is unobservable and admission / side effects are judged), a chunked body whose next chunk-size line is garbage, a chunked body cut by FIN before the terminating chunk or inside a chunk (1-3 chunks), Content-Length smaller than sent with the rest pipelined behind the request; the break happens once the handler is running; k = 0, 1, the agent header's edges (11..21), anywhere, all but one byte, and in 40% THE WHOLE BODY (the read fails after everything was delivered); (2) the RESPONSE WRITER fails: its Write takes k of {0,1,2,3,17,145} bytes and then errors for good; (3) the DECOY PAGE file is missing / is a directory / the working directory is elsewhere during that request. The faulted request keeps its generated class or (1/3) is redrawn canonical / with exactly one mutation, so every request class (matching, each single violation, several, grey, GET/PUT/HEAD) meets the faults. Oracle unchanged, with HEAD's rule for a failed step (verified by experiment): verdict and answer headers do not depend on whether the body could be read or the answer written - body complete (also when the read then fails) => served like any other request: admitted iff the profile is satisfied, 200 + reply + every response header + sender address (over a socket the connection's own address); body incomplete => a request violating the profile gets the decoy 404 and nothing changes, a request matching it reaches the agent protocol, which may refuse the truncated registration (404, no session, no event) but the answer still carries every configured response header except the names the decoy sets itself (Server, Content-Type, X-Havoc); writer failed => status and headers as they went out are the ordinary ones, the body is a prefix, an admitted request has exactly one session; decoy page unavailable => 404 and nothing changed; decoy page available (every request of such a case but the one under a page fault) => every rejected POST and every GET carries Server: nginx, Content-Type text/html and the page byte for byte (PUT / HEAD: no route, status only). A Content-Length entry of the Headers list is matched against the Content-Length the request announces (none when chunked). Labels fault:<dependency>:<operation>:<how>[:<via>]@<matching|non-matching|grey>, fault-step:<dependency>@<request class>, fault-body:*; tallies and socket delivery counts in the evidence's extra block. Non-trivial: >=1 configured constraint and a request that satisfies all or violates exactly one; distinct = (constraint bucket, redirector, config feature, verdict kind of the first non-trivial request). PUNCTUATION VALUES AND ONE-CHARACTER SUBSTITUTION (punct_test.go): one in three ordinary configured header values is a token with ASCII punctuation (JSON-ish / bracketed / quoted / e-mail / path / entity-tag like values from a pool, or 1-14 characters of all of visible ASCII with at least one of ! \" # $ % & ' ( ) * + , - . / : ; < = > ? @ [ \\ ] ^ _ ` { | } ~); request mutation hdr-char-substituted: ONE ASCII character of a configured value (a value with punctuation preferred, the position drawn by class punctuation / letter / digit) is replaced by the character whose code differs in exactly one bit (bit 0 .. bit 6; bit 5, the ASCII case bit, three times as often: { for [, ` for @, ~ for ^, | for \\, TAB for ) ...) or by the next / previous code, kept only when the result is visible ASCII (a blank or TAB inside the value only), so that the request still delivers exactly that value. Oracle unchanged: the substituted value is the configured one only with the same lower-case form (a letter turned into its other case: grey), every other substitution is a different value of the same length and must get the decoy. Labels mut:hdr-char-substituted:<kind>:<class of the replaced character>, char-substituted:*, cfg-header-value-has-ascii-punctuation",
 		Gen:  gen, Check: check, Classify: classify,
 		Assumptions: []string{
 			"requests are delivered in-process through GinEngine.ServeHTTP with canonical header names and trimmed values, as net/http's server delivers them",
